@@ -29,6 +29,8 @@ replay = replay_c19
 INFO = {
     "trusted_base": [TB["T1"], TB["T2"], TB["T3"]],
     "assumptions": ["E1 register-file inverter model (assumed)", "E2 (ES only): AA55 0359 sets the work-mode word of the settings block, 0335 the export limit word, register 0x560 the dod word — firmware behaviour, not library code",
+                    "E3 eco-mode register layout (group bases 47515 / AA55 0x701 / 47547, on/off byte positions and values) is written from the protocol documentation, not read from the settings tables under test",
+                    "prior on/off bytes of groups 2..4 are values ScheduleType.detect_schedule_type accepts (quantifier: prior contents of all schedule types)",
                     "SoC equality is an obligation only for ECO_CHARGE on the 12-byte (v2/745) group: the 8-byte v1 group has no SoC field and encode_discharge takes no SoC argument"],
     "undecided_clauses": [],
 }
